@@ -217,7 +217,22 @@ func C13Apply(r *simkit.Run) {
 		preViolation = true
 		r.Probe("foreign-key-violation-present-before")
 	}
+	// A statement whose conflict clause is OR ROLLBACK: when it fails, SQLite itself ends the
+	// transaction it runs in, behind the back of whoever opened it.
+	orRollbackTable := ""
+	if t.Chance("or-rollback-statements", 1, 5) {
+		f1 := files[0]
+		id := fmt.Sprintf("f1.s%d", len(f1.Stmts))
+		f1.Stmts = append(f1.Stmts, Stmt{ID: id, Kind: KDDL, SQL: fmt.Sprintf("CREATE TABLE IF NOT EXISTS %s (id integer PRIMARY KEY)", ddlTable(id))})
+		orRollbackTable = ddlTable(id)
+	}
+	usedOrRollback := false
 	mkBad := func(tag string, k int) Stmt {
+		if orRollbackTable != "" && t.Chance("bad-with-or-rollback", 1, 2) {
+			usedOrRollback = true
+			r.Probe("failing-statement-with-or-rollback")
+			return Stmt{ID: fmt.Sprintf("%s.s%d", tag, k), Kind: KBad, SQL: fmt.Sprintf("INSERT OR ROLLBACK INTO %s (id) VALUES (7), (7)", orRollbackTable)}
+		}
 		if preViolation && t.Chance("bad-replaces-the-old-orphan", 1, 2) {
 			r.Probe("failing-statement-replaces-an-old-violation-by-a-new-one")
 			id := fmt.Sprintf("%s.s%d", tag, k)
@@ -278,6 +293,24 @@ func C13Apply(r *simkit.Run) {
 		}
 		return fmt.Sprintf("g=%s/%s", g, dir)
 	}
+	// Once a failing OR ROLLBACK statement has ended a transaction behind Atlas' back, everything
+	// that deviates afterwards is one and the same (recorded) finding.
+	orRollbackFired := false
+	sigFor := func(kind string, f *MFile) string {
+		if orRollbackFired {
+			return "or-rollback-statement-ends-the-transaction"
+		}
+		if f == nil {
+			return kind
+		}
+		return kind + "/" + sigOf(f)
+	}
+	noteOrRollback := func(res CmdResult) {
+		if usedOrRollback && strings.Contains(res.Stderr+res.Stdout, "INSERT OR ROLLBACK") && strings.Contains(res.Stderr+res.Stdout, "no transaction is active") {
+			orRollbackFired = true
+			r.Fired("or-rollback-ended-the-transaction")
+		}
+	}
 	prior := map[int]bool{}
 	// Optionally an earlier clean apply of files that precede the failing one.
 	limit := len(files)
@@ -296,6 +329,7 @@ func C13Apply(r *simkit.Run) {
 		n := t.Range("earlier-n", 1, limit)
 		exp, fail := modelApply(files, prior, g, n)
 		res := apply(n)
+		noteOrRollback(res)
 		d := w.Observe()
 		r.Logf("earlier apply %d -> %s effects=%s revs=[%s]", n, res.Class(), EffectVector(d, files), d.RevDigest())
 		r.Sample("earlier `migrate apply %d` -> %s; effects %s revisions [%s]", n, res.Class(), EffectVector(d, files), d.RevDigest())
@@ -304,11 +338,11 @@ func C13Apply(r *simkit.Run) {
 			return
 		}
 		if f, why := compareApply(w, d, files, exp, true); f != nil {
-			r.Fail(propC13, "apply-atomicity", "apply-atomicity/"+sigOf(f), "after clean `migrate apply %d --tx-mode %s`: %s; effects %s revisions [%s]; CLI said: %s", n, g, why, EffectVector(d, files), d.RevDigest(), res.ErrLine())
+			r.Fail(propC13, "apply-atomicity", sigFor("apply-atomicity", f), "after clean `migrate apply %d --tx-mode %s`: %s; effects %s revisions [%s]; CLI said: %s", n, g, why, EffectVector(d, files), d.RevDigest(), res.ErrLine())
 			return
 		}
 		if fail != (res.Exit != 0) {
-			r.Fail(propC13, "exit-status", "exit-status/"+g, "earlier `migrate apply %d`: model says fail=%v, exit=%d (%s)", n, fail, res.Exit, res.ErrLine())
+			r.Fail(propC13, "exit-status", sigFor("exit-status/"+g, nil), "earlier `migrate apply %d`: model says fail=%v, exit=%d (%s)", n, fail, res.Exit, res.ErrLine())
 			return
 		}
 		if !fail {
@@ -325,6 +359,7 @@ func C13Apply(r *simkit.Run) {
 	}
 	exp, fail := modelApply(files, prior, g, n)
 	res := apply(n)
+	noteOrRollback(res)
 	d := w.Observe()
 	r.Logf("apply n=%d -> %s effects=%s revs=[%s]", n, res.Class(), EffectVector(d, files), d.RevDigest())
 	r.Sample("`migrate apply%s --tx-mode %s` -> %s (%s); effects %s revisions [%s]", countArg(n), g, res.Class(), res.ErrLine(), EffectVector(d, files), d.RevDigest())
@@ -344,11 +379,11 @@ func C13Apply(r *simkit.Run) {
 		}
 	}
 	if f, why := compareApply(w, d, files, exp, true); f != nil {
-		r.Fail(propC13, "apply-atomicity", "apply-atomicity/"+sigOf(f), "after `migrate apply%s --tx-mode %s`: %s; effects %s revisions [%s]; CLI said: %s", countArg(n), g, why, EffectVector(d, files), d.RevDigest(), res.ErrLine())
+		r.Fail(propC13, "apply-atomicity", sigFor("apply-atomicity", f), "after `migrate apply%s --tx-mode %s`: %s; effects %s revisions [%s]; CLI said: %s", countArg(n), g, why, EffectVector(d, files), d.RevDigest(), res.ErrLine())
 		return
 	}
 	if fail != (res.Exit != 0) {
-		r.Fail(propC13, "exit-status", "exit-status/"+g, "`migrate apply%s`: model says fail=%v, exit=%d (%s)", countArg(n), fail, res.Exit, res.ErrLine())
+		r.Fail(propC13, "exit-status", sigFor("exit-status/"+g, nil), "`migrate apply%s`: model says fail=%v, exit=%d (%s)", countArg(n), fail, res.Exit, res.ErrLine())
 		return
 	}
 	// Fix the file (replace the failing statement, drop conflicting directives), re-hash, re-run:
@@ -387,6 +422,7 @@ func C13Apply(r *simkit.Run) {
 		}
 		exp2, fail2 := modelApplyFrom(files, exp, g, 0)
 		res = apply(0)
+		noteOrRollback(res)
 		d = w.Observe()
 		r.Logf("rerun with another failing statement -> %s effects=%s revs=[%s]", res.Class(), EffectVector(d, files), d.RevDigest())
 		r.Sample("re-run hits the second failing statement -> %s (%s); effects %s revisions [%s]", res.Class(), firstN(res.ErrLine(), 100), EffectVector(d, files), d.RevDigest())
@@ -396,11 +432,11 @@ func C13Apply(r *simkit.Run) {
 			return
 		}
 		if f, why := compareApply(w, d, files, exp2, true); f != nil {
-			r.Fail(propC13, "apply-atomicity", "apply-atomicity-second-failure/"+sigOf(f), "after the second failure (`--tx-mode %s`): %s; effects %s revisions [%s]; CLI said: %s", g, why, EffectVector(d, files), d.RevDigest(), res.ErrLine())
+			r.Fail(propC13, "apply-atomicity", sigFor("apply-atomicity-second-failure", f), "after the second failure (`--tx-mode %s`): %s; effects %s revisions [%s]; CLI said: %s", g, why, EffectVector(d, files), d.RevDigest(), res.ErrLine())
 			return
 		}
 		if fail2 != (res.Exit != 0) {
-			r.Fail(propC13, "exit-status", "exit-status/"+g, "re-run: model says fail=%v, exit=%d (%s)", fail2, res.Exit, res.ErrLine())
+			r.Fail(propC13, "exit-status", sigFor("exit-status/"+g, nil), "re-run: model says fail=%v, exit=%d (%s)", fail2, res.Exit, res.ErrLine())
 			return
 		}
 		exp = exp2
@@ -420,10 +456,10 @@ func C13Apply(r *simkit.Run) {
 		final[f.Idx] = fileExpect{state: "complete"}
 	}
 	if f, why := compareApply(w, d, files, final, true); f != nil {
-		r.Fail(propC13, "fix-rerun", "fix-rerun/"+sigOf(f), "after fixing and re-running (`--tx-mode %s`) the state differs from a fault-free run: %s; effects %s revisions [%s]; CLI said: %s", g, why, EffectVector(d, files), d.RevDigest(), res.ErrLine())
+		r.Fail(propC13, "fix-rerun", sigFor("fix-rerun", f), "after fixing and re-running (`--tx-mode %s`) the state differs from a fault-free run: %s; effects %s revisions [%s]; CLI said: %s", g, why, EffectVector(d, files), d.RevDigest(), res.ErrLine())
 		return
 	}
 	if res.Exit != 0 {
-		r.Fail(propC13, "fix-rerun", "fix-rerun-exit/"+g, "re-run after fix exits %d: %s", res.Exit, res.ErrLine())
+		r.Fail(propC13, "fix-rerun", sigFor("fix-rerun-exit/"+g, nil), "re-run after fix exits %d: %s", res.Exit, res.ErrLine())
 	}
 }
